@@ -740,6 +740,29 @@ var storageProp = vp.Register(vp.Prop[StorageCase]{
 				Addr:  rapid.SampledFrom(addrPool).Draw(t, "addr"),
 				Names: rapid.SliceOfN(rapid.SampledFrom(namePool), 0, 4).Draw(t, "names"),
 			})
+			if rapid.IntRange(0, 9).Draw(t, "many") == 0 {
+				// An address that accumulates many names (in one record or over
+				// several), some first seen with upper-case letters, and then
+				// meets some of them again in another spelling.
+				a := rapid.SampledFrom(addrPool).Draw(t, "manyaddr")
+				k := rapid.SampledFrom([]int{7, 15, 16, 17, 18, 33, 70}).Draw(t, "manyn")
+				var names []string
+				for j := 0; j < k; j++ {
+					nm := fmt.Sprintf("n%d.example", j)
+					if j%3 == 0 {
+						nm = fmt.Sprintf("N%d.Example", j)
+					}
+					names = append(names, nm)
+				}
+				if rapid.Bool().Draw(t, "onerecord") {
+					c.Ops = append(c.Ops, StorageOp{Addr: a, Names: names})
+				} else {
+					for j := 0; j < k; j += 5 {
+						c.Ops = append(c.Ops, StorageOp{Addr: a, Names: names[j:min(j+5, k)]})
+					}
+				}
+				c.Ops = append(c.Ops, StorageOp{Addr: a, Names: []string{"n0.example", "N3.EXAMPLE", names[k-1], "n1.EXAMPLE"}})
+			}
 		}
 		return c
 	},
